@@ -130,6 +130,19 @@ CHECKS = {
         design_ref="DESIGN.md §5 C12",
         note="std::stable_sort is modelled by List.mergeSort (both stable for a strict weak order); the decoder's "
              "equality with real UTF-16 on valid UTF-8 is shown on examples, not as a general theorem."),
+
+    "C18": dict(
+        technique="Lean 4 proof: 256-case decide on SIMD constants re-extracted from the source, block-loop = scalar "
+                  "search by induction, loads in bounds; one operation corpus run on five builds and compared",
+        text="Lean 4: Gen/Simd.lean (re-extracted every run) holds each x86 kernel's nibble masks / compare bytes / loop "
+             "shape; theorems show every kernel's per-byte classifier is exactly the scalar delimiter set (all 256 bytes), "
+             "the 16-byte block loop with overlapping tail re-load equals the scalar search for every string, start and "
+             "class, has_tabs_or_newline answers 'contains tab/LF/CR', and every load is inside the buffer. The same "
+             "seeded operation corpus (parse, histories, can_parse, IPv4/IPv6-shaped hosts) runs on the SSE2, SSSE3, "
+             "AVX-512(BW+VL), development-checks and amalgamated builds; outputs must be identical and no assertion fire.",
+        design_ref="DESIGN.md §5 C18",
+        note="Compiler code generation, the AVX-512 IPv4 kernel, ipv6_structure_plausible and amalgamate.py are compared "
+             "across builds (differential), not modelled; NEON/LSX/RVV variants cannot be built here."),
 }
 
 NOT_YET = "check not built yet (work in progress in this session; see DESIGN.md §8 build order)"
